@@ -15,7 +15,9 @@ Scalars: `α` is any type with the arithmetic used (`Float` and `Rat` in the dri
 theorems); `sqrt` is a parameter. A feature value is an `Option α`, `none` standing for NaN. Timestamps are
 the `toAbsTime()` values (seconds), `ObsTime.__sub__` being the difference of those.
 The analytical-feature table is abstracted to an insertion-ordered association list name ↦ column (its
-alignment under create/remove is property C01's subject). -/
+alignment under create/remove is property C01's subject).
+Tracks whose positions are `GeoCoords` / `ECEFCoords` (other `distance2DTo`, exceptions): `Model/CinematicsCoords.lean`,
+which reuses the definitions below and coincides with them on `ENUCoords` (`TV.C17.enu_class_is_cinematics`). -/
 namespace TV.Cinematics
 variable {α : Type}
 
